@@ -652,6 +652,54 @@ class World:
         self.hash_sweep(idx)
         return "ok"
 
+    def _clone_path(self, idx, op, entry, how, origin):
+        """deepcopy / pickle round trip: a new path object that starts life with a *copy* of every
+        cache of the original (path-level and segment-level)"""
+        if not self._have(p=[op["p"]]) or op["id"] in self.paths:
+            return "skipped"
+        pr = self.paths[op["p"]]
+        oc = outcome(lambda: how(pr.obj))
+        if oc[0] != "v":
+            self.violate(idx, "other-query", origin, {"raised": oc[1]})
+            return "raised"
+        newobj = oc[1]
+        segs = list(newobj)
+        if len(segs) != len(pr.model) or C(newobj) != C(pr.obj):
+            self.violate(idx, "seq", "seq", {"note": origin + " of a path differs from the path",
+                                             "impl": C(newobj), "orig": C(pr.obj)})
+            return "ok"
+        model, n = [], 0
+        for o, ssid in zip(segs, pr.model):
+            sid = self.sid_of_obj(o)
+            if sid is None:
+                sid = op["sbase"] + n
+                n += 1
+                while sid in self.segs:
+                    sid += 1000
+                src = self.segs[ssid]
+                rec = self.adopt_seg(sid, o, "copy", src)
+                if rec.kind in ("Q", "C"):
+                    rec.tols = set(src.tols)
+                    rec.ulp = src.ulp
+                elif rec.kind == "A":
+                    rec.tols = set(src.tols)
+            model.append(sid)
+        new = PathRec(op["id"], newobj, model, origin)
+        new.warm = pr.warm
+        new.closed_flag = pr.closed_flag
+        self.paths[op["id"]] = new
+        self.probe("path_cloned_with_its_caches")
+        self.note_state(new, origin)
+        self.hash_sweep(idx)
+        return "ok"
+
+    def op_path_deepcopy(self, idx, op, entry):
+        return self._clone_path(idx, op, entry, copy.deepcopy, "deepcopy")
+
+    def op_path_pickle(self, idx, op, entry):
+        import pickle
+        return self._clone_path(idx, op, entry, lambda p: pickle.loads(pickle.dumps(p)), "pickle")
+
     def op_path_slice(self, idx, op, entry):
         if not self._have(p=[op["p"]]) or op["id"] in self.paths:
             return "skipped"
@@ -1400,7 +1448,7 @@ PATH_Q = ["length", "length_T", "length_tol", "length_fail", "point", "T2t", "t2
 SEG_Q = ["length", "length_tol", "length_fail", "length_t", "point", "bbox", "ilength", "repr", "eq",
          "derivative", "unit_tangent", "poly"]
 CREATE = ["new_seg", "dup_seg", "new_path", "seg_reversed", "seg_copy", "path_reversed", "path_slice",
-          "path_subpaths", "path_reparse"]
+          "path_subpaths", "path_reparse", "path_deepcopy", "path_pickle"]
 
 
 class Gen:
@@ -1753,6 +1801,10 @@ class Gen:
                 return {"op": "new_seg", "id": sid, "kind": "A",
                         "arc": {"start": zc(o.start), "radius": zc(o.radius), "rotation": float(o.rotation),
                                 "large_arc": bool(o.large_arc), "sweep": bool(o.sweep), "end": zc(o.end)}}
+            if any(z is None for z in o.bpoints()):
+                # (parse_path of a degenerate d-string can yield Line(start=0j, end=None); nothing to copy)
+                self.next_sid -= 1
+                return self.new_seg_op(a)
             pts = [complex(z) for z in o.bpoints()]
             if a.random() < 0.3:
                 j = a.randrange(len(pts))
@@ -1769,7 +1821,7 @@ class Gen:
         pid = self.next_pid
         self.next_pid += 1
         src = a.choice(pids)
-        if k == "path_reversed":
+        if k in ("path_reversed", "path_deepcopy", "path_pickle"):
             sb = self.next_sid
             self.next_sid += 32
             return {"op": k, "p": src, "id": pid, "sbase": sb}
@@ -1950,6 +2002,7 @@ EXPECTED_PROBES = [
     "endpoint_assigned_where_segment_is_at_two_indices", "endpoint_assigned_on_arc", "closed_flag_path_created",
     "closed_flag_path_compared_equal_to_unflagged_path", "natural_RecursionError",
     "path_shares_segments_with_other_path", "path_retired_segment_edited_behind_its_back",
+    "path_cloned_with_its_caches",
 ]
 
 
